@@ -35,6 +35,36 @@ Theorem C08_introspect_live : forall cl r g c t sub client sc b,
 Proof. exact introspect_live. Qed.
 Print Assumptions C08_introspect_live.
 
+(* "the authenticated caller", spelled out: active:true is only ever answered to a request that
+   presented exactly the non-empty secret its client is registered with, or a client assertion
+   that verified - for EVERY client table, also those whose storage holds (and would accept) an
+   empty secret for public / private_key_jwt clients, on both routers. *)
+Theorem C08_introspect_caller_proved : forall cl r g c t sub client sc b,
+  introspect cl r g c t = OIntro true sub client sc b ->
+  match c with
+  | NoCred => False
+  | Basic i s | Post i s | Both i s _ => s <> "" /\ exists k, find_client cl i = Some k /\ c_secret k = s
+  | Assertion who _ => exists x, who = Some x
+  end.
+Proof. exact introspect_caller_proved. Qed.
+Print Assumptions C08_introspect_caller_proved.
+
+(* no credential, a client_id alone, an empty secret in the form or in a Basic header: never
+   active:true, whatever the storage would say about the empty secret *)
+Theorem C08_secretless_never_introspects : forall cl r g c t sub client sc b,
+  snd (cred_pair c) = "" -> (match c with Assertion _ _ => False | _ => True end) ->
+  introspect cl r g c t <> OIntro true sub client sc b.
+Proof. exact secretless_never_introspects. Qed.
+Print Assumptions C08_secretless_never_introspects.
+
+(* non-vacuity of the above: a storage that accepts the empty secret of a public client exists
+   (the example storage does), that acceptance proves nothing, and the model refuses the request *)
+Theorem C08_storage_acceptance_is_not_proof :
+  exists cl id, store_accepts cl id "" = true /\ authenticated cl (Basic id "") = false /\
+    forall r g t, exists st oa, introspect cl r g (Basic id "") t = OErr st oa.
+Proof. exact storage_acceptance_is_not_proof. Qed.
+Print Assumptions C08_storage_acceptance_is_not_proof.
+
 Theorem C08_inactive_discloses_nothing : forall cl r g c t sub client sc b,
   introspect cl r g c t = OIntro false sub client sc b -> sub = "" /\ client = "" /\ sc = [] /\ b = true.
 Proof. exact inactive_discloses_nothing. Qed.
@@ -45,14 +75,14 @@ Print Assumptions C08_inactive_discloses_nothing.
 Theorem C08_exchange_live_partial : forall cl r s c subj styp actor req scopes aud s' i x rt lv sc sto,
   op_unconfused (Exchange r c subj styp actor req scopes aud) = true ->
   exchange cl r s c subj styp actor req scopes aud = (s', OExch i x rt lv sc sto) ->
-  subj_live (fst s) styp subj = true /\ actor_live (fst s) actor = true.
+  subj_live false (fst s) styp subj = true /\ actor_live (fst s) actor = true.
 Proof. exact exchange_live. Qed.
 Print Assumptions C08_exchange_live_partial.
 
 Theorem C08_exchange_live_refuted :
   exists cl s r c subj styp actor req scopes aud,
     (exists s' i x rt lv sc sto, exchange cl r s c subj styp actor req scopes aud = (s', OExch i x rt lv sc sto)) /\
-    subj_live (fst s) styp subj = false.
+    subj_live false (fst s) styp subj = false.
 Proof. exact exchange_live_refuted. Qed.
 Print Assumptions C08_exchange_live_refuted.
 
